@@ -43,9 +43,14 @@ class InternedMC(type):
     def __call__(cls, **kwargs):
         kwargs = {**cls._constructor_defaults, **kwargs}
         key = tuple(sorted(kwargs.items()))
-        if key not in cls._cache:
-            cls._cache[key] = super().__call__(**kwargs)
-        return cls._cache[key]
+        try:
+            if key not in cls._cache:
+                cls._cache[key] = super().__call__(**kwargs)
+            return cls._cache[key]
+        except TypeError:
+            # A field (e.g. the value a variable is compared to) is not
+            # hashable: this selector cannot be interned
+            return super().__call__(**kwargs)
 
 
 class Selector(metaclass=InternedMC):
@@ -601,7 +606,8 @@ def dict_resolver(env):
 
             try:
                 co = codefind.find_code(*hierarchy, module=module or "__main__")
-            except (KeyError, ImportError):
+            except (KeyError, ImportError, TypeError, ValueError):
+                # TypeError, ValueError: module names such as "." or ".."
                 raise CodeNotFoundError(
                     f"Cannot find a function for the reference '{x}'."
                     " Try calling `ptera.refstring` on the function you want"
@@ -789,6 +795,10 @@ def _find_eval_env(s, fr, skip):
 
 class MatchFunction:
     def __init__(self, fn):
+        if not callable(fn):
+            raise SelectorError(
+                f"The condition after ~ must be a function (got {fn!r})"
+            )
         self.fn = fn
 
 
